@@ -183,6 +183,74 @@ CHECKS.update({
     design='6/C10'),
 })
 
+CHECKS.update({
+'C16': dict(
+    technique='Lean 4 proof over an executable slice-level model; slice arithmetic regenerated from source; correspondence + np.pad/transpose oracle',
+    text='18 theorems for all sizes, offsets, contents and pad modes (any commutative ring): guards_are_documented_limits, '
+         'pad_eq_nppad (constant/wrap/reflect/edge entry for entry, order1 = linear extrapolation), resize_intersection, '
+         'crop_extend_id, adjoint_transpose (one axis, every mode) and adjoint_transpose_nd (any number of axes, grow/shrink '
+         'mixes, by fibre lifting), nd_accepts_iff, order1_linear_extrapolation; operator: range_cell_unchanged (all 16 '
+         'nodes_on_bdry combos), range_grid_min, range_covers_domain, range_grid_aligned_partial and weighted_adjoint_partial '
+         '(the excluded cases are findings C16-F1/F2 with proved counterexamples). n-d identification with NumPy slicing, dtype/out '
+         'handling and the ResizingOperator wrappers are tied by exact correspondence / oracle.',
+    note='translator tools/extract/padslices.py (_padding_slices_inner/_outer by symbolic evaluation, supported modes); the lemmas '
+         'are proved over the generated slices; exact correspondence on integer-valued arrays dims 1-3, all admissible offsets '
+         'and the limit paddings +-1; np.pad index formulas compared with the Lean reference each run; commutation of per-axis '
+         'adjoint steps tested, not proved.',
+    design='6/C16'),
+'C04': dict(
+    technique='Lean 4 proof over a two-layer model (documented table vs replayed overload dispatch) + class-tree correspondence',
+    text='Theorems for every expression tree (unbounded depth, all scalars incl. 0, arbitrary nonlinear leaves, any field): '
+         'build_sound(_inv) (the object built by the modelled dispatch - MRO, reflected-first +, shortcuts f*0/0*f/linear A*a, '
+         'scalar merges, A-B, a-A, A/a, A**n - evaluates to the documented table), inplace_eq_outofplace, build_sound_inplace, '
+         'build_type / build_total / build_rejects (domain, range, Functional-ness; ill-typed rejected), linear_flag_sound, '
+         'linear_flag_complete (partial at the call site of finding C04-F1 until repaired).',
+    note='no translator yet for the dispatch: the tie is an exact comparison, for ~58k (quick) / 248k (thorough) random typed '
+         'trees and all two-level combinations over real ODL leaves on rn/cn, of the real object\'s CLASS TREE (type names '
+         'recursively, merged scalars, stored vectors), raise/no-raise, domain, range, is_linear and out-of-place + in-place '
+         'values with build/run/runIn/typeOf/den; Python overload semantics as encoded in `build` are trusted; leaves opaque.',
+    design='6/C04'),
+'C15': dict(
+    technique='Lean 4 proof over an executable interpolation model + differential correspondence + sampling oracle',
+    text='Proved for all dimensions, node counts >= 2, strictly increasing (non-uniform) coordinates, all points and all '
+         'real/complex value arrays: nearest_is_closest (right ties, clamping), interp_node_exact, linear_weights, linear_blend, '
+         'linear_affine_exact (N-d), outside_zero_extension as coded, nearest_paths_agree, peraxis_nearest_axis, '
+         'call_convention_invariant (point / array / mesh), collocate_paths_agree (sampling dispatch; NumPy fitting abstract). '
+         'Values produced by the sampling wrapper (broadcasting, vectorize) are checked by an exact polynomial oracle on the '
+         'real code only.',
+    note='hand-written model tied by exact correspondence of nearest/linear/per_axis interpolators, Resampling and '
+         'linear_deform in 1-3 d on uniform and non-uniform dyadic grids, all scheme mixes and calling conventions; trusted: '
+         'np.searchsorted(left) = number of nodes < p, fancy indexing, np.vectorize.',
+    design='6/C15'),
+'C17': dict(
+    technique='Lean 4 proof of the ufunc-glue decision model + legacy-table translator + exhaustive differential enumeration vs NumPy',
+    text='Proved on the decision model for all methods, out tuples, shapes and dtypes: out arity/kind rejection, identity of out '
+         'per position, kind/shape/dtype/weighting of the wrapped result, partition of discretized reduce/outer results, operand-'
+         'kind independence, legacy table totality (decide over the GENERATED tables), no-copy wrapping rule, writable_array '
+         'contract. Partial: totality only on regular requests (recorded defects excluded, each with a proved counterexample). '
+         'Numerical equality with NumPy is by delegation: tested exhaustively (84k cases quick / 424k thorough), not proved.',
+    note='NumPy\'s result (exception class or per-output None/scalar/array shape+dtype) is a parameter of the model; translator '
+         'tools/extract/ufunc_legacy.py (RAW_UFUNCS, wrapper out rules, reductions, live NumPy ufunc table); every enumerated '
+         'case compares outcome class, returned-object identity and space kind/shape/dtype/weighting/partition exactly; gufuncs, '
+         'where=/order=/casting= not enumerated; assumes the NumPy 1.26 dispatch protocol.',
+    design='6/C17'),
+'C02': dict(
+    technique='Lean 4 proofs over an executable model of the weighting classes + differential execution + axiom oracle',
+    text='Proved over R/C with positive real weights for all lengths, shapes and nesting depths: inner_conj_symm, inner_add_left, '
+         'inner_smul_left, inner_self_nonneg, inner_self_eq_zero, weighted cauchy_schwarz on tensor/discretized/nested product '
+         'spaces; the documented weighted-sum / quadrature / component-sum formulas; norm2_sq_eq_inner on every space kind; '
+         'dist = norm(x-y) on tensor and discretized spaces (all exponents); pspace_norm_eq_norm_of_norms; '
+         'discr_one_inner_eq_volume (||1||^2 = volume for every uniform_discr with any per-axis-side nodes_on_bdry; partial at '
+         'cell volume exactly 1.0 = finding C02-F1 with proved counterexample). Partial: absolute homogeneity and triangle '
+         'inequality (tensor spaces; p in {1,2,inf}), dist symmetry (leaf spaces). Generic-p triangle and lifting to product '
+         'nodes: correspondence-tested only.',
+    note='hand-written model (no translator) of npy_tensors/weighting/pspace/discr_space/partition/apply_on_boundary; inner '
+         'products compared exactly (Gaussian rationals, dyadic inputs and weights), norms/dists by a double evaluation of the '
+         'same definitions within 1e-9 (1e-4 float32); NumPy dot/vdot/tensordot/linalg.norm and BLAS nrm2 as the exact sums they '
+         'specify; custom inner/norm/dist callables opaque (delegation tested).',
+    design='6/C02'),
+})
+
 NOT_YET = {}
 
 
